@@ -637,9 +637,25 @@ class PyObj(HeapObj):
         return c
 
 
+def _pattern_ok(p) -> bool:
+    """No lambda / quantifier / If inside the trigger (z3 rejects them after beta-reduction)."""
+    stack, seen = [p], set()
+    while stack:
+        t = stack.pop()
+        if t.get_id() in seen:
+            continue
+        seen.add(t.get_id())
+        if z3.is_quantifier(t):
+            return False
+        if z3.is_app(t) and t.decl().kind() in (z3.Z3_OP_ITE, z3.Z3_OP_OR, z3.Z3_OP_AND, z3.Z3_OP_NOT, z3.Z3_OP_EQ):
+            return False
+        stack.extend(t.children())
+    return True
+
+
 def forall_pat(vs, body, *patterns):
     """ForAll with explicit (alternative) triggers when z3 accepts them (a beta-reduced lambda may not be one)."""
-    ok = [p for p in patterns if z3.is_app(p) and p.decl().kind() in (z3.Z3_OP_SELECT, z3.Z3_OP_UNINTERPRETED)]
+    ok = [p for p in patterns if z3.is_app(p) and p.decl().kind() in (z3.Z3_OP_SELECT, z3.Z3_OP_UNINTERPRETED) and _pattern_ok(p)]
     try:
         if ok:
             return z3.ForAll(vs, body, patterns=ok)
